@@ -869,6 +869,10 @@ def run(ctx, prog):
     ctx.rule('C18-D3', 'no reduction / selection / transform along the trace axis outside the documented batch-statistics set')
     ctx.rule('C18-D4', 'decorator contract: 2-D in, 2-D out, same first dimension; metaclass wraps every __call__')
     ctx.assume('the time-frequency formulas are value properties and not decided; pair order / duplication of the combination modes is decided on symbolic traces (C18-D8)')
+    from .. import desugar as _ds
+    ds_ = _ds.desugar_with(prog, ('scared.preprocesses',))
+    if ds_:
+        ctx.note(f'with-statements over repository context managers desugared to try/except: {ds_}')
     from .. import inline
     eps = [inline.inlined(prog, f) for f in entry_points(prog)]
     ctx.unit('entry_points', [f.key for f in eps])
